@@ -12,10 +12,11 @@ from checks import scenarios as S
 
 PROP = "C05"
 LEVEL = "proof"
-THEOREMS = {"Proofs.Props.C05": ["MsPack.Lzss.C05_lzss_roundtrip", "MsPack.Szdd.C05_szdd_roundtrip"],
+THEOREMS = {"Proofs.Props.C05": ["MsPack.Lzss.C05_lzss_roundtrip", "MsPack.Szdd.C05_szdd_roundtrip", "MsPack.Szdd.C05_szdd_qbasic_roundtrip"],
+            "Proofs.Props.C05Kwaj": ["MsPack.Kwaj.C05_kwaj_plain_roundtrip", "MsPack.Kwaj.readHeaders_spec"],
             "Proofs.Props.Tables": ["MsPack.TableObligations.szdd_signatures"]}
 ASSUMPTIONS = ["theorems: the LZSS round trip (every token list, every input buffer size, both ring start positions) and the SZDD file round trip (header values + payload) on the models of lzssd.c / szddd.c; "
-               "the QBasic header variant, KWAJ headers, and the KWAJ xor / LZH / MSZIP payload round trips are not theorems: covered by model/implementation agreement and the plan oracle",
+               "KWAJ: header round trip for all 16 combinations of the optional length / unknown / extra-text parts and the stored and xor payload round trips are theorems (C05_kwaj_plain_roundtrip); the name/extension fields and the LZH / MSZIP payloads are not: covered by model/implementation agreement and the plan oracle",
                "models validated against the C by differential execution (7000+ cases incl. malformed, by the modeller's difftest; re-run here on fresh cases)"]
 RULE = ("szdd.plan, kwaj.plan: random plans from gen/vgen (LZSS token streams incl. matches into the pre-filled ring and across the ring wrap; KWAJ methods none/xor/LZSS/LZH/MSZIP; "
         "every combination of optional header fields; LZH length encodings 0-3 per tree); fixtures libmspack/test/test_files/kwajd/*.kwj; non-trivial = payload of at least one byte; distinct by file bytes")
